@@ -266,6 +266,31 @@ def _deliver_guard_fd(ctx, L, rule):
             ctx.holds(rule, inst + (" [destination-specific]" if specific else " [broadcast]"))
     if n < 2:
         ctx.unknown(rule, "EOM-status delivery paths not found in %s (%d)" % (f.qual, n))
+    # the last segment is padded to a legal frame length: the reassembly is cut to the announced size - at the latest where it is delivered
+    delivered_whole = any(bind_args(e.value, ctx.prog.func("ElectronicControlUnit", "_notify_subscribers")).get("data") == Pd
+                          for r in runs(ctx, f) for _, e in r.effects() if L.is_notify(f, e))
+    if delivered_whole:
+        trunc = ("sub", Pd, ("slice", None, Ps, None))
+        cut = uncut = 0
+        for r in runs(ctx, L.dt):
+            if r.term in ("raise", "exc"):
+                continue
+            if not any(e.kind == "call" and e.value[1] == ("attr", Pd, "extend") for _, e in r.effects()):
+                continue
+            if not any(g == mk_cmp("<", lensym(Pd), Ps) and p is False for g, p in lits(r.guards())):
+                continue
+            if any(e.kind == "store" and e.target == Pd and e.value == trunc for _, e in r.effects()):
+                cut += 1
+            else:
+                uncut += 1
+        inst = "22 reassembly is cut to the announced size when complete (the padding of the last segment is not delivered)"
+        if uncut:
+            ctx.violated(rule, L.dt, inst, "the EOM-status handler delivers the buffer as it is, and the data handler completes it without cutting it to "
+                         "message_size: the application gets the message followed by the 0xFF padding of the last segment", L.dt.node)
+        elif cut:
+            ctx.holds(rule, inst)
+        else:
+            ctx.unknown(rule, "%s: completing path of the data handler not found" % inst)
     # in-order append in the DT handler
     f = L.dt
     m = 0
